@@ -351,3 +351,35 @@ Definition holds (max_paths : nat) (who : accessor) (c0 : config) (sw : list (na
       | _, _ => false
       end
   end.
+
+(** * A write continued over several chunks *)
+
+(** the specified answers: one per chunk, up to and including the first
+    chunk the timed gate refuses *)
+Fixpoint spec_write_chunked (max_paths : nat) (who : accessor) (nd : node) (fabs : list fabric)
+  (win : option N) (ff : bool) (chunks : list wchunk) : list imresp :=
+  match chunks with
+  | [] => []
+  | ch :: rest =>
+      let r := spec_response max_paths who nd fabs (chunk_req win ff ch) in
+      match r with
+      | RespItems _ _ => r :: spec_write_chunked max_paths who nd fabs win ff rest
+      | _ => [r]
+      end
+  end.
+
+(** the monitor: every chunk's answer satisfies [holds] for that chunk (with
+    the chunk's own flag and the clock at that chunk), and nothing follows a
+    chunk that was refused as a whole *)
+Fixpoint holds_chunked (max_paths : nat) (who : accessor) (c0 : config) (sw : list (nat * config))
+  (win : option N) (ff : bool) (chunks : list wchunk) (resps : list imresp) : bool :=
+  match chunks, resps with
+  | [], [] => true
+  | ch :: rest, r :: rs =>
+      holds max_paths who c0 sw (chunk_req win ff ch) r
+      && match r with
+         | RespItems _ _ => holds_chunked max_paths who c0 sw win ff rest rs
+         | _ => match rs with [] => true | _ => false end
+         end
+  | _, _ => false
+  end.
